@@ -137,3 +137,13 @@ def main(prop, level, body, argv=None):
         print('MACHINERY-FAILURE property=%s' % prop)
         sys.exit(2)
     sys.exit(rc)
+
+
+def as_built():
+    """Deviation constants of the as-built design: (DEV_K1, DEV_F5, REGISTRY).
+    put() drops a CLSE for an unknown pair (as built, pinned by the suite); the registry exists once K1 is repaired;
+    DEV_F5 only while F5 is an open finding."""
+    fs = load_findings()
+    k1_open = any(f.status == 'open' and f.fid == 'K1' for f in fs)
+    f5_open = any(f.status == 'open' and f.fid == 'F5' for f in fs)
+    return True, f5_open, (not k1_open)
